@@ -532,7 +532,10 @@ def xray2d_weights(c, angle):
     return inds, w, Px
 
 
-def r_XRayTransform2D(c):
+def r_XRayTransform2D(c, coded=False):
+    """documented boxcar model: pixel p contributes w to bin I and 1 - w to bin I + 1, each when the bin is on the
+    detector.  coded=True: the pinned scatter, where a NEGATIVE first bin also drops the second one (a pixel whose
+    footprint straddles the left detector edge contributes nothing: known finding xray-left-edge-drop)"""
     sh, dx, x0, ny, y0 = xray2d_geometry(c)
     npx = prod(sh)
     rows = []
@@ -542,7 +545,7 @@ def r_XRayTransform2D(c):
         for p, (I, wt) in enumerate(zip(inds.ravel(), w.ravel())):
             if 0 <= I < ny:
                 A[I, p] += wt
-            if 0 <= I and I + 1 < ny:  # (code: a negative first bin also drops the second one)
+            if 0 <= I + 1 < ny and (I >= 0 or not coded):
                 A[I + 1, p] += 1 - wt
         rows.append(A)
     return np.vstack(rows)
@@ -580,26 +583,42 @@ def xray3d_integer_edge(c, eps=1e-9):
     return bool(np.any(np.abs(le - np.round(le)) < eps))
 
 
-def r_XRayTransform3D(c, coded=False):
-    """documented footprint model: the share of the first bin is the overlap min(floor(le) + 1 - le, 0.5);
-    coded=True: the pinned formula min(ceil(le) - le, 0.5), which is 0 when le is an integer"""
+def xray3d_left_edge_partial(c):
+    """some footprint starts in bin -1 on an axis and reaches into bin 0 (partially visible at the top / left detector
+    edge): the pinned code drops it entirely (known finding xray-left-edge-drop)"""
+    le = xray3d_left_edges(c)
+    return bool(np.any(np.floor(le) == -1))
+
+
+def r_XRayTransform3D(c, couple_negative=False):
+    """documented model, from the geometry only: voxel (i,j,k) has its centre projected to M (i+1/2, j+1/2, k+1/2) + t;
+    its footprint is the square of side 1/2 centred there; detector pixel (a, b) covers [a, a+1) x [b, b+1) and receives
+    the fraction of the footprint's area that lies in it (computed as a product of interval overlaps).
+    couple_negative=True: the pinned scatter, where a negative first index on an axis drops both neighbours on that
+    axis (known finding xray-left-edge-drop)"""
     sh, det = c["shape"], c["det_shape"]
     nvox = prod(sh)
+    w = 0.5
+
+    def overlaps(left, nbins):
+        """{bin: |[left, left + w] ∩ [bin, bin + 1]| / w} for the bins of the detector that are met"""
+        out = {}
+        for b in range(int(np.floor(left)), int(np.floor(left + w)) + 1):
+            ov = min(b + 1, left + w) - max(b, left)
+            if ov > 0 and 0 <= b < nbins:
+                out[b] = ov / w
+        return out
+
     blocks = []
     for Mv, t in xray3d_geometry(c):
         A = np.zeros((prod(det), nvox))
         for p, ijk in enumerate(itertools.product(*[range(s) for s in sh])):
-            ctr = Mv @ (np.asarray(ijk) + 0.5) + t
-            # voxel footprint: square of side 0.5 centred at the projected centre, split bilinearly
-            left = ctr - 0.25
-            lo = np.floor(left).astype(int)
-            tn = np.minimum((np.ceil(left) - left) if coded else (np.floor(left) + 1 - left), 0.5)
-            f = [(tn[0], lo[0]), (0.5 - tn[0], lo[0] + 1)]
-            g = [(tn[1], lo[1]), (0.5 - tn[1], lo[1] + 1)]
-            for wa, a in f:
-                for wb, b in g:
-                    if lo[0] >= 0 and lo[1] >= 0 and 0 <= a < det[0] and 0 <= b < det[1]:
-                        A[a * det[1] + b, p] += wa * wb * 4
+            left = Mv @ (np.asarray(ijk) + 0.5) + t - w / 2
+            if couple_negative and (np.floor(left[0]) < 0 or np.floor(left[1]) < 0):
+                continue
+            for a, wa in overlaps(left[0], det[0]).items():
+                for b, wb in overlaps(left[1], det[1]).items():
+                    A[a * det[1] + b, p] += wa * wb
         blocks.append(A)
     return np.vstack(blocks)
 
